@@ -39,10 +39,12 @@ def _verify_one(idx):
         if ob["status"] == "refuted":
             tag = "%s/%s" % (pid, _safe(ob["name"]))
             res, path = replay(C, ob.get("model"), tag)
-            ob["replay"] = dict(path=path, reproduced=res.get("reproduced"), why=res.get("why"), lifted=res.get("lifted"),
+            ob["replay"] = dict(path=path, reproduced=res.get("reproduced"), skipped=res.get("skipped"), why=res.get("why"), lifted=res.get("lifted"),
                                 error=res.get("error"), observed=res.get("observed"), expected=res.get("expected"), inputs=res.get("inputs"))
             if res.get("reproduced") is False:
                 need_enum = True
+    if getattr(C.cls, "abstract_callees", False):
+        need_enum = False
     if need_enum:
         en = native_enum(C, 300 if _G["tier"] == "quick" else 3000, _G["seed"], pid)
         obs.append(dict(name=C.name + "#native-enum", contract=C.name, fn=C.fn, props=list(C.props), status="bounded", enum=en, seconds=0.0))
@@ -188,6 +190,12 @@ def main(argv):
                     known_hits.append((kf, ob))
                 else:
                     violations.append((ob, rp.get("path"), ""))
+            elif rp.get("skipped") == "abstract-callees":
+                kf = known_match(known, pid, ob=ob)
+                if kf:
+                    known_hits.append((kf, ob))
+                else:
+                    violations.append((ob, rp.get("path"), "no-failing-input-found"))
             elif rp.get("reproduced") is False:
                 ob["status"] = "undecided"
                 ob["note"] = "counter-model did not reproduce on the real code (abstraction artefact): treated as undecided"
